@@ -415,7 +415,7 @@ func boolMap(m map[string]bool) map[string]any {
 
 func (prop) Generate(rng *core.Rand, tier string, emit func(string)) {
 	setup()
-	n, ncas, maxSteps := 2000, 4, 16
+	n, ncas, maxSteps := 1500, 4, 16
 	switch tier {
 	case "thorough":
 		n, ncas, maxSteps = 24000, 25, 30
